@@ -17,6 +17,9 @@ VERIF = os.path.dirname(HERE)
 #   inputs). K04 was retried with 8 / 2 concrete-ish command lines and K12's retry-path scenario with unwind 24 (State swap is a
 #   16-iteration byte loop): CBMC aborted at the 14 GB limit in all three. K12 itself became feasible once the harness stopped
 #   calling Info::default() (Doc::from(&str) string processing) and builds an Info without any text.
+#   K13 Meta::peek_front_ty on an And/Or group of 3 and then 2 hand-built children: CBMC aborted at 14 GB after 24 / 7 min
+#   (kani/dropped_k13_meta_help.rs.txt; its cfg(kani) hook in src/meta_help.rs was removed again). K02, K04 and K08 are
+#   superseded by Verus proofs of disambiguate_short, State::construct and escape.
 # harness name -> unit description
 UNITS = [
     # K01: helpers used by the Verus tier through assumed contracts
@@ -53,8 +56,6 @@ UNITS = [
          bound="command name followed by 2 items, every ledger of those 2; inner parser = a probe that records its scope and claims everything"),
     dict(unit="K12.adjacent_command_scope", harness="k12_adjacent_command_scope", tags=["C19", "C08", "C05"], quick=False, complete=False,
          bound="adjacent command name followed by 2 items, every ledger of those 2; success on the first attempt only"),
-    dict(unit="K13.peek_front_ty_group_of_three", harness="k13_peek_front_ty_group_of_three", tags=["C12"], quick=True, complete=False,
-         bound="And/Or group of 3 children, each of {Skip, Optional(Skip), a flag, a positional}"),
     dict(unit="K14.first_line_two_tokens", harness="k14_first_line_two_tokens", tags=["C12", "C04"], quick=False, complete=False,
          bound="two Text tokens over 2+2 ASCII bytes"),
     dict(unit="K14.first_line_three_tokens", harness="k14_first_line_three_tokens", tags=["C12", "C04"], quick=False, complete=False,
@@ -188,7 +189,7 @@ def _slug(s):
 
 
 MODULE_OF = {"k01": "args_inner", "k02": "args", "k03": "arg", "k04": "args", "k05": "complete_shell", "k08": "escape",
-             "k09": "html", "k10": "params", "k12": "params", "k13": "meta_help", "k14": "buffer"}
+             "k09": "html", "k10": "params", "k12": "params", "k14": "buffer"}
 
 
 def replay(repo, rp, work):
